@@ -52,7 +52,11 @@ let methods_of_spec (ms : Sx.t) : Datatypes.nat list =
   | "m", [] -> []
   | _ -> failwith "method spec"
 
-let hdrs_of (x : Sx.t) = List.map (fun h -> match Sx.args h with [n; v] -> (str n, str v) | _ -> failwith "hdr") (Sx.args x)
+(* a header key with an empty list of values reads as absent (http.Header.Get returns "") *)
+let hdrs_of (x : Sx.t) = List.filter_map (fun h -> match Sx.args h with
+  | [_; Sx.A "novalues"] -> None
+  | [n; v] -> Some (str n, str v)
+  | _ -> failwith "hdr") (Sx.args x)
 
 let s_route = str_of_hex "x726f757465"
 
